@@ -87,11 +87,12 @@ type FuncVC struct {
 	params       map[string]SVal
 	callOrd      map[string]int
 	unsup        []string
-	noTerm       []string        // loops with neither a measure nor an error-exit obligation
-	defKeys      map[string]bool // heap keys that carry a definedness ghost (leaves of the outs parameters)
+	noTerm       []string          // loops with neither a measure nor an error-exit obligation
+	skipped      []string          // ensures clauses not checked at a return because they name a local that does not exist there
+	defKeys      map[string]bool   // heap keys that carry a definedness ghost (leaves of the outs parameters)
 	assignLeaves map[string][]Term // the function's own assigns clause, resolved at entry
-	dirtyKeys    map[string]bool // heap keys that carry a written-since-entry ghost (leaves of the pure operands)
-	staleOps     map[string]bool // pointer parameters that are operands only (neither outs nor assigned)
+	dirtyKeys    map[string]bool   // heap keys that carry a written-since-entry ghost (leaves of the pure operands)
+	staleOps     map[string]bool   // pointer parameters that are operands only (neither outs nor assigned)
 	prov         map[ssa.Value]map[string]bool
 	readRoots    map[string]bool // operand parameters the pointer of the load being executed derives from
 	nonnil       map[ssa.Value]bool
@@ -1553,8 +1554,9 @@ func (vc *FuncVC) numberSites() {
 					vc.localNames[ins.Comment] = true
 				}
 			case *ssa.DebugRef:
-				if ins.Object() != nil {
-					vc.localNames[ins.Object().Name()] = true
+				// source-level locals only: a reference to a package-level name is not a local of this function
+				if o := ins.Object(); o != nil && (o.Pkg() == nil || o.Parent() != o.Pkg().Scope()) {
+					vc.localNames[o.Name()] = true
 				}
 			}
 		}
